@@ -138,8 +138,14 @@ def gen_case(rng: random.Random) -> dict:
         ev = _event(rng)
         ev2 = _event(rng)
         if ev[0] == 'elevation' and rng.random() < 0.7:      # cache keys that differ in one parameter only
-            ev2 = (['elevation', ev[1], 'setting' if ev[2] == 'rising' else 'rising'] if rng.random() < 0.6 else
-                   ['elevation', rng.choice([x for x in ELEVATIONS if x != ev[1]]), ev[2]])
+            other = 'setting' if ev[2] == 'rising' else 'rising'
+            pick = rng.random()
+            if pick < 0.4:
+                ev2 = ['elevation', ev[1], other]
+            elif pick < 0.7 and abs(ev[1]) >= 12.0:
+                ev2 = ['elevation', -ev[1], other]        # mirrored: same magnitude, opposite sign and direction
+            else:
+                ev2 = ['elevation', rng.choice([x for x in ELEVATIONS if x != ev[1]]), ev[2]]
         prods = [{'ev': ev, 'filter': None}, {'ev': ev2, 'filter': None},
                  {'ev': ev, 'filter': _filter(rng) if rng.random() < 0.6 else None}]
         base = _start(rng)
